@@ -333,10 +333,12 @@ func (k *Keeper) UnescrowCoin(ctx sdk.Context, escrowAddress, receiver sdk.AccAd
 func (k *Keeper) TokenFromCoin(ctx sdk.Context, coin sdk.Coin) (types.Token, error) {
 	// if the coin does not have an IBC denom, return as is
 	if !strings.HasPrefix(coin.Denom, "ibc/") {
-		// a native denomination whose name parses as an ICS-20 path (port/channel/base) cannot be
-		// represented unambiguously in packet data: the receiving and refunding logic would treat
-		// the leading segments as hops.
-		if !types.ExtractDenomFromPath(coin.Denom).IsNative() {
+		// a native denomination whose name parses as an ICS-20 path (port/channel/base), on its own
+		// or once a hop is prefixed to it (e.g. "foo/channel-1"), cannot be represented unambiguously
+		// in packet data: the receiving, refunding and returning logic would treat segments of the
+		// name as hops.
+		oneHop := types.NewDenom(coin.Denom, types.NewHop(types.PortID, channeltypes.FormatChannelIdentifier(0)))
+		if parsed := types.ExtractDenomFromPath(oneHop.Path()); parsed.Base != coin.Denom || len(parsed.Trace) != 1 {
 			return types.Token{}, errorsmod.Wrapf(types.ErrInvalidDenomForTransfer, "native denomination %s is not distinguishable from an ICS-20 denomination path", coin.Denom)
 		}
 
